@@ -107,6 +107,12 @@ Proof.
   - unfold c09_renamed_away in H. apply negb_false_iff in H. apply str_eqb_eq in H. destruct w1, w2; cbn [c09_pick]; congruence.
 Qed.
 
+(* which entities a back end declares at all: TypeScript inlines struct variants (PayInline), so the
+   <Enum><Variant>Inner helper structs exist in the other five languages only *)
+Definition c09_has_inner (L : lang) : bool := match L with TypeScript => false | _ => true end.
+Definition c09_defines (L : lang) (e : c09_entity) : bool :=
+  match c9e_kind e with C9KInner => c09_has_inner L | _ => true end.
+
 (* ---------------------------------------------------------------- shape of an observation *)
 Inductive c09_ref_shape (L : lang) (pfx : str) (pd : parsed) (r : c09_ref) : Prop :=
 | C9S_generic (j : c09_entity) :
@@ -122,11 +128,11 @@ Inductive c09_ref_shape (L : lang) (pfx : str) (pd : parsed) (r : c09_ref) : Pro
     c09_parent_which L (c9e_kind j) = Some w ->
     c9_name r = pfx ++ c09_pick w (c9e_id j) ++ c9e_suffix j -> c09_ref_shape L pfx pd r
 | C9S_inner (i : c09_entity) :
-    In i (c09_entities pd) -> c9e_kind i = C9KInner -> c9_pos r = C9Payload ->
+    In i (c09_entities pd) -> c9e_kind i = C9KInner -> c09_has_inner L = true -> c9_pos r = C9Payload ->
     c9_name r = pfx ++ c09_pick (c09_inner_ref_which L) (c9e_id i) ++ c9e_suffix i -> c09_ref_shape L pfx pd r.
 
 Record c09_shape (L : lang) (pfx : str) (pd : parsed) (obs : c09_obs) : Prop := {
-  c9sh_complete : forall e, In e (c09_entities pd) -> In (c09_def_name L pfx e) (c9_defs obs);
+  c9sh_complete : forall e, In e (c09_entities pd) -> c09_defines L e = true -> In (c09_def_name L pfx e) (c9_defs obs);
   c9sh_sound : forall d, In d (c9_defs obs) -> exists e, In e (c09_entities pd) /\ d = c09_def_name L pfx e;
   c9sh_refs : forall r, In r (c9_refs obs) -> c09_ref_shape L pfx pd r }.
 
@@ -159,29 +165,29 @@ Let Hpw : c09_pairwise (c09_sep L pfx) ents = true := c09_dom_pairwise L pfx pd 
 Lemma c09_class_none x : In x (c09_classes L pfx acrs pd) -> x = None.
 Proof. apply c09_first_none. exact Hknown. Qed.
 
-Lemma c09_defined_as_ok e : In e ents -> c09_defined_as L pfx (c9_defs obs) e = Some (c09_def_name L pfx e).
+Lemma c09_defined_as_ok e : In e ents -> c09_defines L e = true -> c09_defined_as L pfx (c9_defs obs) e = Some (c09_def_name L pfx e).
 Proof.
-  intros He. unfold c09_defined_as.
+  intros He Hdef. unfold c09_defined_as.
   destruct (find (c09_denotes L pfx e) (c9_defs obs)) as [d|] eqn:F.
   - apply find_some in F as [Hd Dd]. destruct (c9sh_sound _ _ _ _ Hshape d Hd) as (e' & He' & ->).
     f_equal. assert (e = e') as <-; [|reflexivity].
     eapply c09_unamb_eq; [exact Hpw|exact He|exact He'|exact Dd|].
     apply c09_denotes_spelling. apply c09_pick_spelling.
-  - exfalso. eapply find_none in F; [|apply (c9sh_complete _ _ _ _ Hshape e He)].
+  - exfalso. eapply find_none in F; [|apply (c9sh_complete _ _ _ _ Hshape e He Hdef)].
     rewrite c09_denotes_spelling in F; [discriminate|apply c09_pick_spelling].
 Qed.
 
 (* a name that is the [w]-spelling of entity [e] is a good target as soon as the table agrees *)
 Lemma c09_target_ok_pick owner r e w :
-  In e ents -> c9_name r = pfx ++ c09_pick w (c9e_id e) ++ c9e_suffix e ->
+  In e ents -> c09_defines L e = true -> c9_name r = pfx ++ c09_pick w (c9e_id e) ++ c9e_suffix e ->
   c09_pick w (c9e_id e) = c09_pick (c09_def_which L (c9e_kind e)) (c9e_id e) ->
   (c9_pos r = C9Parent -> owner = Some e) ->
   c09_target_ok L pfx ents (c9_defs obs) owner r = true.
 Proof.
-  intros He Hn Hw Hpar. unfold c09_target_ok.
+  intros He Hdef Hn Hw Hpar. unfold c09_target_ok.
   assert (c09_denotes L pfx e (c9_name r) = true) as Dn by (rewrite Hn; apply c09_denotes_spelling, c09_pick_spelling).
   rewrite (c09_find_unamb L pfx ents e (c9_name r) Hpw He Dn).
-  rewrite (c09_defined_as_ok e He). apply andb_true_iff. split.
+  rewrite (c09_defined_as_ok e He Hdef). apply andb_true_iff. split.
   - apply str_eqb_eq. rewrite Hn. unfold c09_def_name. rewrite Hw. reflexivity.
   - destruct (c9_pos r); try reflexivity. rewrite (Hpar eq_refl). unfold c09_same_entity. rewrite !str_eqb_refl. reflexivity.
 Qed.
@@ -197,7 +203,7 @@ Qed.
 
 Lemma c09_shape_ref_ok r : c09_ref_shape L pfx pd r -> c09_ref_ok L pfx ents (c9_defs obs) r = true.
 Proof.
-  intros [j Hj Hin Hpos Hg | tp form i e Htp Hid Hlk Hpos Hn | j w Hj Hin Hpos Hw Hn | i Hi Hk Hpos Hn].
+  intros [j Hj Hin Hpos Hg | tp form i e Htp Hid Hlk Hpos Hn | j w Hj Hin Hpos Hw Hn | i Hi Hk Hinner Hpos Hn].
   - (* generic parameter *)
     unfold c09_ref_ok.
     assert (c09_denotes L pfx j (c9_in r) = true) as Dj by (rewrite Hin; apply c09_denotes_spelling, c09_pick_spelling).
@@ -207,7 +213,7 @@ Proof.
   - (* a mentioned item *)
     destruct (c09_lookup_in pd i e Hlk) as (He & Ho & Hk).
     apply c09_ref_ok_of_target; [rewrite Hpos; apply (c09_tposs_pos pd); exact Htp|].
-    intros owner. eapply c09_target_ok_pick; [exact He|exact Hn| |].
+    intros owner. eapply c09_target_ok_pick; [exact He|unfold c09_defines; destruct (c9e_kind e); try reflexivity; exfalso; apply Hk; reflexivity|exact Hn| |].
     + assert (c09_type_site_class L form (c9t_pos tp) e = None) as Hc.
       { apply c09_class_none. unfold c09_classes. apply in_or_app. left. apply in_flat_map. exists tp. split; [exact Htp|].
         unfold c09_tpos_classes. apply in_flat_map. exists (form, i). split; [exact Hid|]. cbn [snd fst]. rewrite Hlk. left. reflexivity. }
@@ -221,7 +227,7 @@ Proof.
     assert (c09_denotes L pfx j (c9_in r) = true) as Dj by (rewrite Hin; apply c09_denotes_spelling, c09_pick_spelling).
     rewrite (c09_find_unamb L pfx ents j (c9_in r) Hpw Hj Dj).
     rewrite Hpos. cbn [c09_pos_eqb negb]. rewrite andb_false_r.
-    eapply c09_target_ok_pick; [exact Hj|exact Hn| |reflexivity].
+    eapply c09_target_ok_pick; [exact Hj|unfold c09_defines; destruct (c9e_kind j); try reflexivity; destruct L; discriminate|exact Hn| |reflexivity].
     assert (c09_parent_site_class L j = None) as Hc.
     { apply c09_class_none. unfold c09_classes. apply in_or_app. right. apply in_or_app. left. apply in_flat_map. exists j. split; [exact Hj|].
       destruct (c9e_kind j) eqn:K; try (left; reflexivity). destruct L; discriminate. }
@@ -231,7 +237,7 @@ Proof.
     apply c09_pick_eq. left. exact Ew.
   - (* the helper struct of a struct variant *)
     apply c09_ref_ok_of_target; [rewrite Hpos; discriminate|].
-    intros owner. eapply c09_target_ok_pick; [exact Hi|exact Hn| |rewrite Hpos; discriminate].
+    intros owner. eapply c09_target_ok_pick; [exact Hi|unfold c09_defines; rewrite Hk; exact Hinner|exact Hn| |rewrite Hpos; discriminate].
     assert (c09_inner_site_class L i = None) as Hc.
     { apply c09_class_none. unfold c09_classes. apply in_or_app. right. apply in_or_app. left. apply in_flat_map. exists i. split; [exact Hi|].
       rewrite Hk. left. reflexivity. }
